@@ -107,6 +107,12 @@ def gen_values(tier, r):
                                         for _ in range(6000)]
     for c in cps:
         vals.append(chr(c))
+    # values of every order of magnitude (a whole document is a legitimate value): sizes around the powers of two
+    # (at most 2^14 + 1 characters here: some spellings of this part say size=100000, which has to stay an identity for
+    # the escaped text; the bigger ones are in check_sizes)
+    small = [n for n in size_ladder('quick') if n <= 2 ** 14 + 1]
+    for n in r.sample(small, 10 if tier == 'quick' else len(small)):
+        vals.append(big_text(gen_big(r, n)))
     alpha = list(SPECIALS) * 3 + ['a', 'Z', ' ', '\n', ';', '#', 'x', '2', '7', 'amp', 'lt', 'é', 'ſ', '€',
                                   ' ', '\U0001F600', '&amp;', '&#x27;', '&lt', '\x00', '0']
     n = 6000 if tier == 'quick' else 120000
@@ -128,6 +134,11 @@ def gen_values(tier, r):
 
 def _esc(s):
     return html.escape(s, True)
+
+
+def _short(x):
+    s = repr(x)
+    return s if len(s) <= 300 else '%s...%s (%d characters)' % (s[:150], s[-100:], len(x))
 
 
 def _sql(s):
@@ -549,6 +560,9 @@ def make_value(d):
         return sub2_template(d['enc'])
     if k == 'bytes8':
         return d['v'].encode(d['enc'])
+    if k == 'big':
+        v = big_text(d)
+        return v.encode(d['enc']) if d.get('enc') else Obj(v) if d.get('obj') else v
     if k == 'str':
         return d['v']
     if k == 'tainted':
@@ -839,6 +853,8 @@ PLACE_FULL = ['<dtml-var x fmt=html-quote>', '<dtml-var x html_quote missing="M"
 PLACE_SIMPLE_E = ['%(x html_quote)s', '%(var x html_quote)s', '%(name=x html_quote)s'][:2]
 PLACE_FULL_E = ['%(x fmt=html-quote)s', '%(x html_quote missing=M)s']
 PLACE_ENCODINGS = [None, 'utf-8', 'latin-1', 'cp1252', 'utf-16']
+PLACE_MORE_ENCODINGS = ['utf-16-le', 'utf-16-be', 'utf-32', 'utf-32-le', 'utf-7', 'cp500', 'cp037', 'iso-2022-jp', 'hz',
+                        'shift_jis', 'utf-8-sig', 'gb18030']
 PLACE_TEXTS = ['Gr\xfc\xdfe <b>"M\xfcller" & \'S\xf6hne\'</b>', '\xe9<', '€"', "\xff&'", 'plain', '<', 'x\U0001F600>',
                '\xc4\xa4', '&amp;\xdf']
 SENT_A, SENT_B = '{|', '|}'
@@ -1010,9 +1026,9 @@ def check_places(res, tier, r, have_driver):
         if syntax == 'html' and '<dtml-' in frame and not nested:
             frames.append(('html', to_ssi(frame)))
         for form, is_full in forms:
-            encs = PLACE_ENCODINGS
+            encs = PLACE_ENCODINGS + (r.sample(PLACE_MORE_ENCODINGS, 1) if quick else PLACE_MORE_ENCODINGS)
             if nested:
-                encs = [None] + r.sample(PLACE_ENCODINGS[1:], 1 if quick else 2)
+                encs = [None] + r.sample(PLACE_ENCODINGS[1:] + PLACE_MORE_ENCODINGS, 1 if quick else 2)
             for enc in encs:
                 history = place_history(r, tier, enc, is_full)
                 for ins in (form, SENT_A + form + SENT_B):
@@ -1128,7 +1144,7 @@ def corr_places(res, tier, r):
 # Expected: the reference below -- concatenation of the pieces; an insertion is html.escape of the text the value
 # stands for, where bytes stand for their decoding in the encoding of the template the insertion is WRITTEN in.
 
-COMPOSE_ENCODINGS = [None, 'utf-8', 'latin-1', 'cp1252', 'utf-16']
+COMPOSE_ENCODINGS = [None, 'utf-8', 'latin-1', 'cp1252', 'utf-16', 'utf-16-le', 'utf-32-be', 'utf-7', 'cp500', 'utf-8-sig']
 PROVENANCES = ['new', 'new', 'cooked', 'pickled', 'pickled-cooked', 'munged', 'copied', 'subclass']
 CALLS = [('<dtml-var §>', False), ('<!--#var §-->', False), ('<dtml-var name=§>', False), ('<dtml-var name="§">', False),
          ('<dtml-var "§(None, _)">', False), ('<dtml-var expr="§(None, _)">', False), ('<dtml-var "_[\'§\']">', False),
@@ -1299,6 +1315,225 @@ def check_compositions(res, tier, r):
             sampled = True
 
 
+# ----------------------------------------------------------------------------------------------
+# (E) SIZES: "the same value gives the same escaped text ... whatever other characters it contains" -- values of every
+# order of magnitude (whole documents are quoted for an edit form): lengths around every power of two and of ten, random
+# lengths in between; a head, a tail and a middle dense in the five specials, the rest padding of every kind (harmless
+# ASCII, specials only, 2-, 3- and 4-byte characters, entity look-alikes); as text, as an object with that string form
+# and as bytes in the template's encoding; through EVERY spelling of the quoting insertion.
+# Expected: REF_TABLE applied character by character (the five references of the HTML standard escaping, written out
+# here), which must also be what html.escape gives; the escaped head / tail must stand unchanged at the start / end of
+# the output whatever lies in between; html.unescape returns the text.
+
+REF_TABLE = {'&': '&amp;', '<': '&lt;', '>': '&gt;', '"': '&quot;', "'": '&#x27;'}
+
+
+def ref_escape(s):
+    return ''.join([REF_TABLE.get(c, c) for c in s])
+
+
+def size_ladder(tier):
+    top = 17 if tier == 'quick' else 20
+    sizes = set()
+    for k in range(3, top + 1):
+        sizes.update((2 ** k - 1, 2 ** k, 2 ** k + 1))
+    for k in range(2, 6 if tier == 'quick' else 7):
+        sizes.update((10 ** k - 1, 10 ** k, 10 ** k + 1))
+    return sorted(sizes)
+
+
+BIG_HEADS = ["it's", '<a href="x?a=1&b=2">O\'Neil</a>', "'", '&', '"', '<', '>', 'caf\xe9 \'日本\' & <\U0001f600>',
+             '&amp;\'', '', 'plain', "'" * 4, '&#39;\'&#x27;']
+BIG_PADS = [' padding', 'a', 'x;', '\n', '\xe9', '€', '\U0001f600', '日本語 ', "'", '&<', '>"\'', '&amp;',
+            'lorem ipsum dolor sit amet, ', '0123456789']
+
+
+def gen_big(r, n):
+    """description of a text of exactly n characters"""
+    return {'t': 'big', 'n': n, 'head': r.choice(BIG_HEADS), 'tail': r.choice(BIG_HEADS), 'mid': r.choice(BIG_HEADS),
+            'pad': r.choice(BIG_PADS[:4] * 3 + BIG_PADS)}
+
+
+def big_text(d):
+    n = d['n']
+    head, mid, tail = d['head'][:n], d['mid'], d['tail']
+    tail = tail[:max(0, n - len(head))]
+    room = n - len(head) - len(tail)
+    mid = mid[:room]
+    room -= len(mid)
+    pad = d['pad']
+    fill = (pad * (room // len(pad) + 1))[:room]
+    a = room // 2
+    return head + fill[:a] + mid + fill[a:] + tail
+
+
+def big_parts(d):
+    n = d['n']
+    head = d['head'][:n]
+    return head, d['tail'][:max(0, n - len(head))]
+
+
+SIZE_ENCODINGS = ['utf-8', 'utf-8', 'latin-1', 'cp1252', 'utf-16', 'utf-16-le', 'utf-32', 'utf-7', 'cp500', 'gb18030']
+
+
+def size_form(src):
+    # the identity truncation of the spellings with size=: far beyond every value of this section
+    return src.replace('size=100000', 'size=1000000000')
+
+
+def check_sizes(res, tier, r):
+    ladder = size_ladder(tier)
+    sizes = ladder + [r.randrange(1, ladder[-1]) for _ in range(12 if tier == 'quick' else 40)] + [0, 1, 2, 3, 5]
+    all_forms = ([(f, 'simple') for f in SIMPLE_FORMS] + [(f, 'full') for f in FULL_FORMS] +
+                 [(f, 'nested') for f in NESTED_FORMS])
+    sampled = False
+    for n in sizes:
+        d = gen_big(r, n)
+        text = big_text(d)
+        want = ref_escape(text)
+        head, tail = big_parts(d)
+        if len(text) != n or want != _esc(text):
+            res.harness_errors.append('sizes: the reference table and html.escape disagree on %r' % (d,))
+            continue
+        forms = all_forms if n < 40000 else r.sample(all_forms, 10 if tier == 'quick' else 14)
+        kinds = [dict(d), dict(d, obj=True)]
+        enc = r.choice(SIZE_ENCODINGS)
+        if survives(text, enc):
+            kinds.append(dict(d, enc=enc))
+        for dv in kinds:
+            v = make_value(dv)
+            for (syn, src), path in forms:
+                if dv.get('enc') and path == 'full':
+                    continue        # bytes through the full path: known finding C03-bytes-fullpath
+                form = size_form(src)
+                out = render(syn, form, v, encoding=dv.get('enc'))
+                res.evaluations += 1
+                res.count('size_cases')
+                res.count('size_kind=' + ('bytes' if dv.get('enc') else 'obj' if dv.get('obj') else 'str'))
+                what = None
+                if out != want:
+                    if isinstance(out, str):
+                        k = next((i for i, (a, b) in enumerate(zip(out, want)) if a != b), min(len(out), len(want)))
+                        what = ('output differs from the standard escaping of the %d characters at offset %d: %r, '
+                                'expected %r' % (n, k, out[max(0, k - 10):k + 20], want[max(0, k - 10):k + 20]))
+                    else:
+                        what = 'output %r' % (out,)
+                elif not (out.startswith(ref_escape(head)) and out.endswith(ref_escape(tail))):
+                    what = 'the escaped text of the head / tail changed with the characters in between'
+                elif html.unescape(out) != text:
+                    what = 'html.unescape(output) != value'
+                if what:
+                    res.oracle_fail.append({'case': {'kind': 'size', 'value': dv, 'form': form, 'syntax': syn,
+                                                     'encoding': dv.get('enc')},
+                                            'what': what})
+            if any(c in text for c in SPECIALS):
+                res.nt(('size', json.dumps(dv, sort_keys=True)))
+        res.count('size_magnitude=2^%d' % n.bit_length())
+        if not sampled and n > 4000:
+            res.sample({'value': d, 'characters': n, 'forms': len(forms),
+                        'each output': 'reference table applied per character'})
+            sampled = True
+
+
+# ----------------------------------------------------------------------------------------------
+# (F) ENCODINGS: "bytes values in the template's encoding" for EVERY text encoding this Python has (ASCII supersets,
+# UTF-16 / UTF-32 with and without byte order, the stateful 7-bit encodings iso-2022-*, hz, utf-7, EBCDIC code pages, the
+# double-byte East Asian ones, utf-8-sig, punycode ...) x texts of the scripts the encoding can express (those that
+# survive encode / decode), incl. texts whose encoded form is 7-bit only, texts without any special, single specials,
+# random strings over the encodable alphabet x every simple quoting spelling, alone and between literal text, HTML and
+# EPFS; one compiled template per (spelling, encoding) renders all the texts one after the other.
+# Expected: html.escape(text) -- the bytes stand for their decoding in the template's encoding.
+
+SCRIPT_TEXTS = ['plain', 'a<b', 'x & y', '"q" \'s\' <t> &amp;', "'", '&', '<', '>', '"', ' ', '@', '0', '~\\^|{}[]`$#',
+                'こんにちは', 'ΑΒΓ <α&β>', '日本語 "テスト"',
+                '\xe9t\xe9 <\xfc> & \xdf', 'caf\xe9', 'Привет <мир> & \'я\'',
+                'שלום "<&>"', 'مرحبا \'&\'', 'สวัสดี<>',
+                '你好，世界 <&>', '한국어 "\'"', '€<', '\U0001f600&\'', 'Ł\xf3dź <ą>',
+                'İstanbul\'da', 'T\xfcrk\xe7e & ğ', 'Āā<Ē>', 'Việt "Nam"', '＜＆＞<&>',
+                'A', 'it\'s <b>&amp;</b>', '\x00<', '\x7f&', '\x80\x9f<', '\xa0\xff\'', ' >']
+SCRIPT_CHARS = sorted(set(''.join(SCRIPT_TEXTS)) | set(SPECIALS))
+ENC_FORMS = [('html', f) for f in PLACE_SIMPLE] + [('epfs', f) for f in PLACE_SIMPLE_E]
+_encs = []
+
+
+def text_encodings():
+    """every text encoding of this Python (normalised names, aliases dropped)"""
+    if not _encs:
+        import codecs
+        import encodings
+        import pkgutil
+        seen = set()
+        names = sorted(x.name for x in pkgutil.iter_modules(encodings.__path__))
+        for m in names + ['utf-16-le', 'utf-16-be', 'utf-32-le', 'utf-32-be']:
+            if m in ('aliases', 'mbcs', 'oem'):
+                continue
+            try:
+                ci = codecs.lookup(m)
+                if not getattr(ci, '_is_text_encoding', True) or ci.name in seen:
+                    continue
+                if 'a'.encode(m).decode(m) != 'a':
+                    continue
+            except Exception:  # noqa
+                continue
+            seen.add(ci.name)
+            _encs.append(m)
+    return _encs
+
+
+def survives(text, enc):
+    try:
+        return text.encode(enc).decode(enc) == text
+    except Exception:  # noqa   (UnicodeError, and the errors of the codecs that are not total)
+        return False
+
+
+def check_encodings(res, tier, r):
+    encs = text_encodings()
+    res.count('encodings_known', len(encs))
+    sampled = False
+    for enc in encs:
+        texts = [t for t in SCRIPT_TEXTS if survives(t, enc)]
+        chars = [c for c in SCRIPT_CHARS if survives(c, enc)]
+        if chars:
+            for _ in range(6 if tier == 'quick' else 60):
+                t = ''.join(r.choice(chars) for _ in range(r.choice([1, 2, 3, 5, 8, 13])))
+                if survives(t, enc):
+                    texts.append(t)
+        if not texts:
+            res.count('encodings_without_text')
+            continue
+        if tier == 'quick' and len(texts) > 21:
+            texts = texts[:9] + r.sample(texts[9:], 12)
+        res.count('encodings_used')
+        forms = ENC_FORMS if tier != 'quick' else ENC_FORMS[:2] + r.sample(ENC_FORMS[2:], 3)
+        for syn, form in forms:
+            for src in (form, '[' + form + ']'):
+                for t in texts:
+                    raw = t.encode(enc)
+                    want = _esc(t)
+                    if src != form:
+                        want = '[' + want + ']'
+                    out = render(syn, src, raw, encoding=enc)
+                    res.evaluations += 1
+                    res.count('encoding_cases')
+                    if raw.isascii():
+                        res.count('encoding_cases_7bit_bytes')
+                    case = {'kind': 'enc', 'value': {'t': 'bytes8', 'v': t, 'enc': enc}, 'form': src, 'syntax': syn,
+                            'encoding': enc, 'expected': want}
+                    if out != want:
+                        res.oracle_fail.append({'case': case,
+                                                'what': 'template encoding %s, bytes %r (= %r): output %r, expected %r '
+                                                        '(html.escape of the text the bytes stand for)'
+                                                        % (enc, raw, t, out, want)})
+                    elif html.unescape(out[1:-1] if src != form else out) != t:
+                        res.oracle_fail.append({'case': case, 'what': 'html.unescape(output) != the text'})
+                    if any(c in t for c in SPECIALS):
+                        res.nt(('enc', enc, src, t))
+        if not sampled and enc.startswith('iso2022'):
+            res.sample({'encoding': enc, 'texts': texts[:12], 'forms': [f for _, f in forms]})
+            sampled = True
+
+
 def run(res, tier, have_driver):
     r = common.rng('C03')
     res.rule = ('every single code point (quick: U+0000-2FFF + 6000 random; thorough: all 1,112,064) and random '
@@ -1331,7 +1566,13 @@ def run(res, tier, have_driver):
                 'every spelling, expr with the namespace, _[..], _.render, _.getitem, attribute of a with object, quoted) '
                 'from 13 kinds of section, rendered 2-4 times from the top and from inner templates directly; expected = '
                 'reference evaluator (bytes stand for their decoding in the encoding of the template the insertion is '
-                'written in)' % (len(PLACE_EXPECT) + len(TEXT_PLACES) + len(TEXT_PLACES_E)))
+                'written in).  SIZES: texts of 0 .. 2^17 (thorough 2^20) characters around every power of two / ten '
+                '(head, middle, tail dense in specials; 14 kinds of padding) as str, object and bytes in 9 encodings through all '
+                '29 spellings; expected = the five references applied per character; escaped head / tail unchanged.  '
+                'ENCODINGS: bytes values in EVERY text encoding of this Python (about 100: UTF-16/32 with and without byte '
+                'order, stateful 7-bit, EBCDIC, double-byte, signatures) x texts of the scripts the encoding expresses x the '
+                'simple quoting spellings alone and between literals; places and compositions also use encodings that are '
+                'not ASCII supersets' % (len(PLACE_EXPECT) + len(TEXT_PLACES) + len(TEXT_PLACES_E)))
     res.exhaustive = tier == 'thorough'
     vals = gen_values(tier, r)
     reqs = []
@@ -1351,7 +1592,8 @@ def run(res, tier, have_driver):
                 exp = v if kind == 'plain' else want
                 if out != exp:
                     res.oracle_fail.append({'case': {'value': v, 'form': src, 'syntax': syn},
-                                            'what': 'output %r, expected %r (html.escape of the value)' % (out, exp)
+                                            'what': 'output %s, expected %s (html.escape of the value)'
+                                                    % (_short(out), _short(exp))
                                             if kind != 'plain' else
                                             'plain insertion changed the value: %r' % (out,)})
                 elif kind != 'plain':
@@ -1439,6 +1681,8 @@ def run(res, tier, have_driver):
     res.have_driver = have_driver
     corr_places(res, tier, common.rng('C03-place-model'))
     check_compositions(res, tier, common.rng('C03-compose'))
+    check_sizes(res, tier, common.rng('C03-sizes'))
+    check_encodings(res, tier, common.rng('C03-encodings'))
     res.partial.append('option combinations and scenes are decided by the oracle on the real code only (no model '
                        'counterpart); html_quote + url_unquote(_plus) on values containing %, and comma insertion on '
                        'values with four digits in a row, are left to C15 (finding C15-double-unquote)')
@@ -1509,6 +1753,16 @@ def replay(path):
         print(repr(out), 'expected', repr(c['expected']))
         return 0 if out == c['expected'] else 1
     v = make_value(c.get('value'))
+    if c.get('kind') in ('size', 'enc'):
+        # sizes: the value is described (head, padding, middle, tail, length); encodings: bytes of a text in the encoding
+        d = c['value']
+        text = big_text(d) if d['t'] == 'big' else d['v']
+        want = c.get('expected', ref_escape(text))
+        out = render(syn, c['form'], v, encoding=c.get('encoding'))
+        k = next((i for i, (a, b) in enumerate(zip(out, want)) if a != b), min(len(out), len(want)))
+        print(c['form'], 'encoding', c.get('encoding'), '%d characters; first difference at %d' % (len(text), k))
+        print(repr(out[max(0, k - 20):k + 40]), 'expected', repr(want[max(0, k - 20):k + 40]))
+        return 0 if out == want else 1
     if 'accept' in c:
         out = render(syn, c['form'], v)
         print(repr(out), 'expected one of', c['accept'])
